@@ -33,10 +33,38 @@ def writable(mode):
     return mode is None or any(c in mode for c in 'wax+')
 
 
-def classify(call):
+def _kind_of_name(c):
+    if c in OPEN_NAMES:
+        return 'OPEN'
+    if c in MKDIR_NAMES:
+        return 'MKDIR'
+    if c in REMOVE_NAMES:
+        return 'REMOVE'
+    if c in RENAME_NAMES:
+        return 'RENAME'
+    return None
+
+
+def local_aliases(func):
+    """{local name: kind} for method values bound to a local: `rename = self.fs.rename if ... else os.rename`"""
+    out = {}
+    for st in walk_no_nested(func):
+        if isinstance(st, ast.Assign) and len(st.targets) == 1 and isinstance(st.targets[0], ast.Name):
+            v = st.value
+            leaves = [v.body, v.orelse] if isinstance(v, ast.IfExp) else [v]
+            if all(isinstance(x, (ast.Attribute, ast.Name)) for x in leaves):
+                kinds = {_kind_of_name(norm(x)) for x in leaves}
+                if len(kinds) == 1 and None not in kinds:
+                    out[st.targets[0].id] = kinds.pop()
+    return out
+
+
+def classify(call, aliases=None):
     c = callee(call)
     if c is None:
         return None
+    if aliases and c in aliases:
+        return aliases[c]
     if c in OPEN_NAMES:
         return 'OPEN'
     if c in MKDIR_NAMES:
@@ -60,9 +88,10 @@ def classify(call):
 def direct_effects(func):
     """list of (kind, call) for calls directly in func (not nested defs)"""
     out = []
+    al = local_aliases(func)
     for n in walk_no_nested(func):
         if isinstance(n, ast.Call):
-            k = classify(n)
+            k = classify(n, al)
             if k:
                 out.append((k, n))
     return out
